@@ -64,6 +64,7 @@ BadPaths ==
    Std(<<>>, 0, 0), Std(<<2, 0>>, 0, 0), Std(<<0>>, 0, 0),                                    \* empty segment
    Std(<<2, 2>>, 2, 0), Std(<<2, 2>>, 3, 1), Std(<<2, 2>>, 0, 4), Std(<<2, 2>>, 0, 63),       \* pointers off the path
    Std(<<2, 2>>, 4, 0), Std(<<2, 2>>, 0, 64),                                                 \* pointers off the field
+   Std(<<40, 39>>, 1, 70), Std(<<40, 40>>, 1, 64), Std(<<27, 27, 26>>, 2, 79),                \* CurrHF on the path but > 6 bits
    Uns(0, 4), Uns(1, 4), Uns(1, 16), Uns(2, 32), Uns(0, 0),                                   \* alias
    Uns(200, 3), Uns(200, 6), Uns(200, 988), Uns(200, 1000)}
 
@@ -107,6 +108,9 @@ GCommon == {Mk(tc, flow, nh, V4a, V6a, Empty, Raw(1, <<170>>)) :
            \cup {[Mk(0, 5, 17, V4a, V4a, Empty, Udp(sp, dp, 2, <<1, 2>>)) EXCEPT !.dia = ia, !.sia = ia2] :
                    sp \in {0, 65535}, dp \in {0, 443}, ia \in {IA1, IA2}, ia2 \in {IA2, IA3}}
 
+(* an "unknown" SCMP message model that carries a known type number would be read back as that type *)
+GBadScmp == {Mk(0, 0, 202, V4a, V4a, Empty, [ScmpM("unk", n, <<1, 2, 3>>) EXCEPT !.mtype = t]) : t \in {1, 5, 128, 130}, n \in {4, 40}}
+
 GBadAddr == {Mk(0, 0, NhOf(pl), d, s, Empty, pl) :
                d \in BadAddrs \cup {V4a}, s \in BadAddrs \cup {V6a}, pl \in {Raw(2, <<1>>), Udp(1, 2, 2, <<1>>)}}
             \ {Mk(0, 0, NhOf(pl), V4a, V6a, Empty, pl) : pl \in {Raw(2, <<1>>), Udp(1, 2, 2, <<1>>)}}
@@ -122,13 +126,14 @@ GQuote == UNION {
   : h \in QuoteHdrs}
 
 GroupIds == {<<"addr", d>> : d \in GoodAddrs} \cup {<<"size", n>> : n \in PaySizes}
-            \cup {<<"shape", 0>>, <<"common", 0>>, <<"badaddr", 0>>, <<"quote", 0>>}
+            \cup {<<"shape", 0>>, <<"common", 0>>, <<"badaddr", 0>>, <<"quote", 0>>, <<"badscmp", 0>>}
 GroupOf(g) ==
   CASE g[1] = "addr" -> GAddr(g[2])
     [] g[1] = "size" -> GSize(g[2])
     [] g[1] = "shape" -> GShape
     [] g[1] = "common" -> GCommon
     [] g[1] = "badaddr" -> GBadAddr
+    [] g[1] = "badscmp" -> GBadScmp
     [] OTHER -> GQuote
 
 -----------------------------------------------------------------------------
